@@ -184,6 +184,93 @@ def C16_agg_route(n: int, r0: int, r1: int, r2: int, fast: bool) -> bool:
   return got == sorted(('node-for-' + k, 2004, 'a') for k in keys) and sorted(set(r.hash_router.keys)) == keys
 
 
+# ---- aggregation-aware routing across a reload of the rules file ------------------------------------------
+from carbon.aggregator import rules as aggrules  # noqa: E402
+
+_AGG_OUT = ['agg.<x>.sum', 'total.<x>']
+_AGG_IN = ['in.<x>', 'in2.<x>']
+_AGG_FILES = {}
+
+
+def _gen_agg_files():
+  for o in range(2):
+    for i in range(2):
+      path = os.path.join(_RULES_DIR, 'aggregation-rules-%d%d.conf' % (o, i))
+      with open(path, 'w') as fh:
+        fh.write('# generated\n%s (60) = sum %s\n' % (_AGG_OUT[o], _AGG_IN[i]))
+      _AGG_FILES[(o, i)] = path
+  path = os.path.join(_RULES_DIR, 'aggregation-rules-empty.conf')
+  open(path, 'w').close()
+  _AGG_FILES[None] = path
+
+
+_gen_agg_files()
+_AGG_METRICS = ['in.a', 'in2.a', 'other.a']
+
+
+def _agg_expected(choice, metric):
+  if choice is None:
+    return [metric]
+  o, i = choice
+  prefix = _AGG_IN[i].split('<')[0]
+  if metric.startswith(prefix) and '.' not in metric[len(prefix):]:
+    return [_AGG_OUT[o].replace('<x>', metric[len(prefix):])]
+  return [metric]
+
+
+def C16_agg_reload(cfg: int, mm: int) -> bool:
+  """
+  pre: 0 <= cfg < 64
+  pre: 0 <= mm < 9
+  post: __return__
+  """
+  # the router follows the rules file that is on disk: metrics routed before a reload are routed by the new
+  # rules afterwards (same input pattern, other aggregate name included)
+  import shutil as _sh
+  cfg, mm = int(cfg), int(mm)                 # one concrete configuration per path
+  o1, i1, o2, i2 = cfg & 1, (cfg >> 1) & 1, (cfg >> 2) & 1, (cfg >> 3) & 1
+  second_empty, touched = ((cfg >> 4) & 1) == 1, ((cfg >> 5) & 1) == 1
+  mi, m2 = mm % 3, mm // 3
+  first = (o1, i1)
+  second = None if second_empty else (o2, i2)
+  path = os.path.join(_RULES_DIR, 'agg-live-%d%d%d%d%d%d.conf' % (o1, i1, o2, i2, second_empty, touched))
+  _sh.copyfile(_AGG_FILES[first], path)
+  os.utime(path, (1000, 1000))
+  rm = aggrules.RuleManager.__class__()
+  rm.rules_file = path
+  old_log = aggrules.log
+  aggrules.log = type('L', (), {'__getattr__': lambda self, n: (lambda *a, **k: None)})()
+  try:
+    rm.read_rules()
+    r = object.__new__(routers.AggregatedConsistentHashingRouter)
+    r.hash_router = _HashRouter()
+    r.agg_rules_manager = rm
+    ok = True
+    for idx in (mi, m2):
+      metric = _AGG_METRICS[idx]
+      r.hash_router.keys = []
+      list(r.getDestinations(metric))
+      if r.hash_router.keys != _agg_expected(first, metric):
+        ok = False
+    if touched:
+      _sh.copyfile(_AGG_FILES[second], path)
+      os.utime(path, (2000, 2000))
+    rm.read_rules()
+    current = second if touched else first
+    cover('reloaded' if touched else 'untouched')
+    for idx in (mi, m2):
+      metric = _AGG_METRICS[idx]
+      r.hash_router.keys = []
+      list(r.getDestinations(metric))
+      if r.hash_router.keys != _agg_expected(current, metric):
+        raise AssertionError('%r routed by %r, the rules file says %r' % (metric, r.hash_router.keys, _agg_expected(current, metric)))
+  finally:
+    aggrules.log = old_log
+    if os.path.exists(path):
+      os.remove(path)
+  return ok
+
+
 HARNESSES = [
   H('C16_rules_logic', quick=dict(timeout=280, shards=[('n%d' % k, 'n == %d' % k) for k in (1, 2)] + [('n%d_m%d' % (k, m), 'n == %d and match == %d' % (k, m)) for k in (3, 4) for m in range(8)],
                                   extra_pre=['configured >= 3', 'd0 in (1, 7) and d1 in (2, 7) and d2 in (4, 6) and d3 in (1, 7)']),
@@ -202,4 +289,10 @@ HARNESSES = [
     encodes=['carbon.routers:AggregatedConsistentHashingRouter.getDestinations', 'carbon.routers:FastAggregatedHashingRouter'],
     assumptions=['0-3 stub aggregation rules mapping the metric to nothing / aggregate A / aggregate B (symbolic); recording hash router (C05/C06 cover the hashing); '
                  'the rule regexes themselves are C08_pattern']),
+  H('C16_agg_reload', quick=dict(timeout=280, shards=[('c%d' % k, 'cfg %% 4 == %d' % k) for k in range(4)]),
+    covers=['reloaded', 'untouched'],
+    encodes=['carbon.aggregator.rules:RuleManager.read_rules / parse_definition', 'carbon.aggregator.rules:AggregationRule.get_aggregate_metric (metric name cache)',
+             'carbon.routers:AggregatedConsistentHashingRouter.getDestinations'],
+    assumptions=['one-rule aggregation-rules files (2 output x 2 input patterns, or empty), loaded, two metrics routed, file rewritten (symbolic choice) with a newer mtime or left alone, '
+                 're-read, the same metrics routed again; recording hash router']),
 ]
